@@ -133,9 +133,10 @@ method("_do_fetch", "(%s) -> None" % SELF, props=["C02", "C14"],
                     "or old(self._fetch_offset) == -101, 0, 1))",
                 # ... and its reply / failure is routed to the handlers that carry on from there (the consumer would stall otherwise)
                 "reply-handlers-attached[C02]":
-                    "implies(old(self._request_d) is None, events('Add') == ite(n_events('FetchRequest') == 1, "
-                    "('addCallback:afkak.consumer.Consumer._handle_fetch_response', 'addErrback:afkak.consumer.Consumer._handle_fetch_error'), "
-                    "('addCallbacks:afkak.consumer.Consumer._handle_offset_response,afkak.consumer.Consumer._handle_offset_error',)))",
+                    "implies(old(self._request_d) is None, "
+                    "n_added('_handle_fetch_response') == n_events('FetchRequest') and n_added('_handle_fetch_error') == n_events('FetchRequest') and "
+                    "n_added('_handle_offset_response') == 1 - n_events('FetchRequest') and "
+                    "n_added('_handle_offset_error') == 1 - n_events('FetchRequest'))",
                 # C13/C02: a retry timer that is still pending is cancelled, not just forgotten (it would fire into a later run)
                 "pending-retry-cancelled[C13]": "implies(old(self._request_d) is None and old(self._retry_call) is not None and "
                                                 "old(active(self._retry_call)), n_events('CancelTimer') == 1)"})
@@ -297,7 +298,7 @@ method("_handle_fetch_response", "(%s, responses: List[FetchResponse]) -> None" 
        ensures={
            # C02: a reply that arrives while a block is being processed is parked behind the block (handled when it completes),
            # never dropped, and no fetch is scheduled meanwhile
-           "parked-behind-the-block[C02]": "implies(old(self._msg_block_d) is not None, n_events('Add') == 1 and n_calls('_retry_fetch') == 0 "
+           "parked-behind-the-block[C02]": "implies(old(self._msg_block_d) is not None, n_events('Add') >= 1 and n_calls('_retry_fetch') == 0 "
                                            "and n_calls('_process_messages') == 0)",
            # C02: otherwise the next fetch is scheduled unless the failure was surfaced
            "refetch-scheduled[C02]": "implies(old(self._msg_block_d) is None, n_calls('_retry_fetch') + n_events('Fired') == 1)"},
